@@ -543,7 +543,7 @@ def run_case(item: T.Tuple[str, T.Any]) -> dict:
 # ------------------------------------------------------------------------------------------------------
 # directed probes (re-observed on every run)
 
-PROBES: T.List[T.Tuple[str, str]] = [
+PROBES: T.List[T.Tuple] = [
     # bool/int conflation (known finding): each must be classified with its own site, or conform once repaired
     ('bool-int-conflation:arith', "x = 1 + true\nmessage(x)"),
     ('bool-int-conflation:arith', "x = 7 * false\nmessage(x)"),
@@ -573,6 +573,18 @@ PROBES: T.List[T.Tuple[str, str]] = [
     ('', "message('@0@ then @1@'.format('@1@', 'x'), '@1@ @0@ @1@'.format('@0@', '@1@'), '@0@@0@'.format('@0@'))"),
     ('', "message('@1@'.format('a', '@0@'), '@01@ @00@'.format('a', 'b'), '@0@'.format(['@0@', '@1@'], 'z'))"),
     ('', "fa = '@fb@'\nfb = 'x @fa@ @0@'\nmessage(f'@fa@ and @fb@', f'@fb@@fa@'.format('y'))"),
+    # a stored iterable value has no iteration state: second walk, nested walk of the same value, walk after break
+    ('', "r = range(4)\nq = r\na = []\nforeach i : r\n  if i == 2\n    break\n  endif\n  a += [i]\nendforeach\nforeach i : q\n  a += [i]\nendforeach\n"
+         "foreach i : r\n  foreach j : get_variable('r')\n    a += [[i, j]]\n  endforeach\nendforeach\nmessage(a, r[1], q[-1])"),
+    ('', "l = [1, 2]\nd = {'a': 1, 'b': 2}\na = []\nforeach i : l\n  foreach j : l\n    a += [i * j]\n  endforeach\nendforeach\n"
+         "foreach k, v : d\n  break\nendforeach\nforeach k, v : d\n  a += [k]\nendforeach\nmessage(a)"),
+    # a fallback that is the empty value of its type is still a fallback (and is ignored when the variable exists)
+    ('', "sp = subproject('s')\nmessage(sp.get_variable('nope', 0), sp.get_variable('nope', false), sp.get_variable('nope', ''), "
+         "sp.get_variable('nope', []), sp.get_variable('nope', {}), sp.get_variable('zero', 5), sp.get_variable('empty', [1]), sp.get_variable('zero'))",
+     {'subprojects/s/meson.build': "project('s')\nzero = 0\nempty = []\n"}),
+    ('', "message(get_variable('nope', 0), get_variable('nope', false), get_variable('nope', ''), get_variable('nope', []), get_variable('nope', {}), "
+         "[].get(0, 0), [].get(3, false), [1].get(-2, ''), [].get(0, []), {}.get('k', 0), {}.get('k', false), {}.get('k', ''), {}.get('k', {}), "
+         "{'k': 0}.get('k', 1), [0].get(0, 1))"),
     ('jump-outside-loop:raw-exception', "break"),
     ('jump-outside-loop:raw-exception', "if true\n  continue\nendif"),
     # behaviour the documents fix and the unchanged tree gets right (sanity of the pipeline)
@@ -592,9 +604,12 @@ PROBES: T.List[T.Tuple[str, str]] = [
 
 def probe_items() -> T.List[T.Tuple[str, T.Any]]:
     items = []
-    for i, (mech, body) in enumerate(PROBES):
+    for i, probe in enumerate(PROBES):
+        mech, body = probe[0], probe[1]
         text = G.PROJECT_LINE + "\nmessage('BEGIN')\n" + body + "\nmessage('AFTER')\nmessage('END')\n"
         pfiles = {'meson.build': text}
+        if len(probe) > 2:
+            pfiles.update(probe[2])
         if "subdir('d')" in body:
             pfiles['d/meson.build'] = "z = 1\n"
         items.append(('literal', {'files': pfiles, 'pkind': 'probe', 'label': f'probe{i}:{mech or "conforms"}:{body[:40]}',
